@@ -112,9 +112,11 @@ class Resampling(Operator):
 
         out_ctx = nullcontext() if out is None else writable_array(out)
         with out_ctx as out_arr:
-            return point_collocation(
+            result = point_collocation(
                 interpolator, self.range.meshgrid, out=out_arr
             )
+
+        return result if out is None else out
 
     @property
     def inverse(self):
